@@ -123,6 +123,55 @@ def scan_skip_rule(ck, P):
                  "an entry is skipped although nothing failed: %s — valid tiles or levels are dropped while the container is opened" % bad[:3], ir.loc(b))
 
 
+def pm_depth_rules(ck, P):
+    """R-PM-DEPTH (shared with C03): lookup and coverage scan of the PMTiles reader descend the same number of directory levels"""
+    # ---------------- R-PM-DEPTH
+    pd = [b for b in P.bodies if b["q"].endswith("calc_bbox_pyramid::parse_directories")]
+    pl = None
+    for i in P.impls_of("::TilesReaderTrait"):
+        if i.get("self_adt", "").endswith("::PMTilesReader"):
+            pl = P.impl_method(i, "get_tile_data")
+    if ck.anchor("R-PM-DEPTH", "PMTiles lookup + coverage scan", pd + ([pl] if pl else []), 2):
+        def depth_consts(b):
+            out = set()
+            for n in ir.walk_nodes(b["body"]):
+                if n.get("k") == "path" and n.get("dk", "").startswith("Const") and "DEPTH" in (n.get("q") or "").upper():
+                    out.add(n["q"])
+            return out
+        c1, c2 = depth_consts(pd[0]), depth_consts(pl)
+        lp = [n for n in ir.walk_nodes(pl["body"]) if n.get("k") == "for"]
+        bound = None
+        if lp:
+            it = ir.unparen(lp[0]["iter"])
+            fl = {f["name"]: f["e"] for f in it.get("fields", [])} if it.get("k") == "struct" else {}
+            bound = ir.const_eval(fl.get("end"), {}) if "end" in fl else None
+            if "start" in fl and ir.const_eval(fl["start"], {}) != 0:
+                bound = None       # the loop must make `bound` rounds
+        # number of directory levels each side visits: lookup `for _ in 0..K` = K; scan = recursion from a constant start d0 with d + 1 per
+        # level and an exit when d >= K (K - d0 levels) or d > K (K - d0 + 1)
+        scan_levels = None
+        b_s = pd[0]
+        dp = [x for p_ in b_s["params"] for x in ir.pat_binds(p_) if x["t"] in ("u8", "u32", "usize", "u64", "u16", "i32")]
+        if dp:
+            dh, dn = dp[-1]["hid"], dp[-1]["name"]
+            g = [n for n in ir.walk_nodes(b_s["body"]) if n.get("k") == "if" and ir.cmp_norm(n["c"]) is not None and ir.cmp_norm(n["c"])[0] == dn and ir.cmp_norm(n["c"])[1] in (">=", ">") and
+                 (ir.diverges(n["then"]) or ir.contains(n["then"], lambda y: y.get("k") == "ret"))]
+            rec = [y for y in ir.walk_nodes(b_s["body"]) if y.get("k") == "call" and (y.get("q") or "") == b_s["q"]]
+            from . import affine as A
+            step_ok = bool(rec) and all(any(A.eq(A.ev(a_, A.Env()), A.add(A.sym((dh, dn)), A.const(1))) for a_ in y["a"]) for y in rec)
+            outer = [y for x in P.bodies if x["q"] != b_s["q"] for y in ir.walk_nodes(x["body"]) if y.get("k") == "call" and (y.get("q") or "") == b_s["q"]]
+            d0 = None
+            if len(outer) == 1:
+                consts = [ir.const_eval(a_, {}) for a_ in outer[0]["a"] if ir.const_eval(a_, {}) is not None and (ir.strip(a_).get("t") or "") in ("u8", "u32", "usize", "u64", "u16", "i32")]
+                d0 = consts[-1] if consts else None
+            if len(g) == 1 and step_ok and d0 is not None and bound is not None:
+                scan_levels = bound - d0 + (1 if ir.cmp_norm(g[0]["c"])[1] == ">" else 0)
+        ck.check(scan_levels is not None and scan_levels == bound, "R-PM-DEPTH", "same-levels", "the coverage scan descends as many directory levels as the lookup (%s)" % bound,
+                 "the coverage scan visits %s directory level(s), the lookup %s: tiles in the deeper leaves are returned but not advertised (or the reverse)" % (scan_levels, bound), ir.loc(pd[0]))
+        ck.check(bool(c1) and c1 == c2 and bound is not None and bound >= 3, "R-PM-DEPTH", "shared-limit", "lookup loop and coverage recursion are limited by the same constant (%s = %s levels; the specification allows root + leaf levels)" % (sorted(c1), bound),
+                 "lookup and coverage scan do not share one depth limit (scan: %s, lookup: %s, bound %s)" % (sorted(c1), sorted(c2), bound), ir.loc(pl))
+
+
 def mb_reader_rules(ck, P):
     """R-MB-READ: the MBTiles reader reads what the schema says.
     cols   every row.get(i) inside the row callback of a statement prepared from a constant SELECT addresses the column the
@@ -321,30 +370,11 @@ def rules(ck, P):
         flt = ir.contains(s["body"], lambda y: y.get("k") == "bin" and y.get("op") == ">" and _is_range_len(y["l"]) and ir.const_eval(y["r"], {}) == 0)
         ck.check(flt, "R-SPARSE", s["q"] + "|empty-entry", "stream: zero-length index entries are skipped", "stream does not skip zero-length entries", ir.loc(s))
 
-    # ---------------- R-PM-DEPTH
-    pd = [b for b in P.bodies if b["q"].endswith("calc_bbox_pyramid::parse_directories")]
+    pm_depth_rules(ck, P)
     pl = None
     for i in P.impls_of("::TilesReaderTrait"):
         if i.get("self_adt", "").endswith("::PMTilesReader"):
             pl = P.impl_method(i, "get_tile_data")
-    if ck.anchor("R-PM-DEPTH", "PMTiles lookup + coverage scan", pd + ([pl] if pl else []), 2):
-        def depth_consts(b):
-            out = set()
-            for n in ir.walk_nodes(b["body"]):
-                if n.get("k") == "path" and n.get("dk", "").startswith("Const") and "DEPTH" in (n.get("q") or "").upper():
-                    out.add(n["q"])
-            return out
-        c1, c2 = depth_consts(pd[0]), depth_consts(pl)
-        lp = [n for n in ir.walk_nodes(pl["body"]) if n.get("k") == "for"]
-        bound = None
-        if lp:
-            it = ir.unparen(lp[0]["iter"])
-            fl = {f["name"]: f["e"] for f in it.get("fields", [])} if it.get("k") == "struct" else {}
-            bound = ir.const_eval(fl.get("end"), {}) if "end" in fl else None
-            if "start" in fl and ir.const_eval(fl["start"], {}) != 0:
-                bound = None       # the loop must make `bound` rounds
-        ck.check(bool(c1) and c1 == c2 and bound is not None and bound >= 3, "R-PM-DEPTH", "shared-limit", "lookup loop and coverage recursion are limited by the same constant (%s = %s levels; the specification allows root + leaf levels)" % (sorted(c1), bound),
-                 "lookup and coverage scan do not share one depth limit (scan: %s, lookup: %s, bound %s)" % (sorted(c1), sorted(c2), bound), ir.loc(pl))
 
     # ---------------- R-PM-RUN
     ft = [b for b in P.bodies if b["q"].endswith("entries_v3::EntriesV3::find_tile")]
